@@ -61,6 +61,9 @@ def check (line : String) : String :=
         if pats.any (·.2.2.2) then "bad exception-in-pattern" else
         let ob : Obs := { dA, dB, aEmpty := ea, bEmpty := eb, m, mt, pm, p, pb, q, qb,
                           pats := pats.map (fun x => (x.1, x.2.1, x.2.2.1)), self }
+        let nov := match flattenPair ga.g gb.g with
+          | some (A, B) => if nearIncidence A.f B.f then "1" else "0"
+          | none => "?"
         if !consistent ob then
           -- name the first conjunct that fails
           let why :=
@@ -72,20 +75,17 @@ def check (line : String) : String :=
             else if qb != prepPredsOf mt dB dA then s!"prepared-vs-matrix-swapped mt={mt.toStr} QB={get "QB"} dims={dB},{dA}"
             else if !(ob.pats.all fun (pp, r, pr) => r == m.matchesPat pp && pr == r) then s!"pattern m={m.toStr} pat={get "pat"}"
             else s!"self-relations self={get "self"}"
-          let nov := match flattenPair ga.g gb.g with
-            | some (A, B) => if nearIncidence A.f B.f then "1" else "0"
-            | none => "?"
           "bad " ++ why ++ " nov=" ++ nov
-        else if get "QR" != get "Q" then s!"bad prepared-order-dependent Q={get "Q"} QR={get "QR"}"
+        else if get "QR" != get "Q" then s!"bad prepared-order-dependent Q={get "Q"} QR={get "QR"} nov={nov}"
         else if ea && eb && (get "P").toList[7]? == some '1' && m.toStr == "FFFFFFFF2" then "bad equals-both-empty"
         else
           let rect := get "rect"
           let rectBad := rect != "-" && rect != s!"{get "P"}:{get "Q"}:{get "PB"}"
-          if rectBad then s!"bad rectangle-variant rect={rect} expected={get "P"}:{get "Q"}:{get "PB"}"
+          if rectBad then s!"bad rectangle-variant rect={rect} expected={get "P"}:{get "Q"}:{get "PB"} nov={nov}"
           else
             let xy := get "xy"
             match xy.toList with
-            | [a, b, c, d] => if a == c && b == d then "ok" else s!"bad xy-forms xy={xy}"
+            | [a, b, c, d] => if a == c && b == d then "ok" else s!"bad xy-forms xy={xy} nov={nov}"
             | _ => if xy == "-" then "ok" else "bad xy-format"
       | _, _, _, _, _, _, _, _ => "bad exception-or-unparsable-observation"
     | _, _ => "parse-error"
